@@ -37,7 +37,8 @@ MANIFEST = dict(
           "keys exactly once, and layout invariance. Gen_MetricsQuery exports scenarios (series, grid, ~380 PromQL texts with expected "
           "vectors) and layout histories; each pair is replayed on the real engine via OpenTSDB put, mblockflush / msizerotate / shutdown "
           "rotation + restart, and every query is run through ConvertPromQLToMetricsQuery + ExecuteMultipleMetricsQuery on open and on "
-          "rotated data."),
+          "rotated data. A long-series family (2-3 series x 12 or 20 samples, 42 queries, histories that split a series at every position "
+          "into parts of 1..11 samples over blocks, segments and process lives) compares every sample of raw selectors and aggregations."),
     note=("Samples sit on the step grid (one sample per series and evaluation timestamp), so lookback/staleness and downsampling inside a "
           "step are not exercised. Regex restricted to literal, alternation, prefix.*, .*suffix, .*, .+. Values are small integers. "
           "Metric-name regex selectors, range functions, comparison/logical operators, topk/quantile/stddev are out of scope. Result metric "
